@@ -1,5 +1,5 @@
 """C09 — the cluster update is weight-preserving and reversible."""
-from checks import pure_fns
+from checks import pure_fns, law_audits
 from checks import extra_audits
 LEAN_TARGETS = ["QmcProofs.RefinementClusterExact", "QmcProps.C09", "drv_c09"]
 BINS = ["c09"]
@@ -96,4 +96,5 @@ def main(ck):
         ck.correspond("synthetic-strings", "drv_c09", cases)
         cases = ck.harness("c09", ["equilibrium"])
         ck.correspond("equilibrium-strings", "drv_c09", cases)
+    law_audits.run(ck, groups=['refine', 'ideal', 'step', 'example'])   # idealised law of the executable model = the Markov kernel of the invariance theorems
     return ck.finish(RULE)
